@@ -120,8 +120,8 @@ def handle (op : String) (args : List String) : Option String := do
       let (b, rest') ← natList rest
       if !rest'.isEmpty then none
       pure (boolStr (sortNat a == sortNat b))
-  | "c16.holds.closest" => do     -- args: id d2 px py pz cx cy cz n d2_0 … d2_{n-1}
-      match args with
+  | "c16.holds.closest" => do     -- args: <class> id d2 px py pz cx cy cz n d2_0 … d2_{n-1}
+      match args.drop 1 with
       | idt :: rest =>
         let i ← nat? idt
         let fs ← floats? (rest.take 7)
@@ -130,7 +130,10 @@ def handle (op : String) (args : List String) : Option String := do
         if ds.length ≠ n then none
         match fs with
         | [d2, px, py, pz, cx, cy, cz] =>
-          let isMin := ds.all (fun d => d2 ≤ d)
+          -- nearest by distance, "ties aside": within 1e-9·max(1,d) of every element's distance
+          let d := Float.sqrt d2
+          let tol := 1e-9 * (if 1.0 < d then d else 1.0)
+          let isMin := ds.all (fun di => d ≤ Float.sqrt di + tol)
           let own := match ds[i]? with | some d => d == d2 | none => false
           pure (boolStr (isMin && own && px == cx && py == cy && pz == cz))
         | _ => none
